@@ -681,3 +681,47 @@ func relatedOriginAtoms(a OAtom, pool []OAtom) []OAtom {
 func allValidKindOriginAtoms() []OAtom {
 	return append(append(append([]OAtom{}, secureOriginAtoms...), insecureOriginAtoms...), pslOriginAtoms...)
 }
+
+// confusables: spellings of an ASCII name in which one letter is replaced by a non-ASCII letter that Unicode case mapping or
+// folding turns into it (k/K -> KELVIN SIGN, i/I -> I WITH DOT ABOVE and DOTLESS I, s/S -> LONG S). None of them is a token:
+// each is ONE violation of kind "invalid", whatever name it resembles (lesson of seeded changes C19-o, C05-o, C08-o).
+func confusables(name string) []string {
+	var out []string
+	for i := 0; i < len(name); i++ {
+		var reps []string
+		switch name[i] {
+		case 'k', 'K':
+			reps = []string{"\u212A"}
+		case 'i', 'I':
+			reps = []string{"\u0130", "\u0131"}
+		case 's', 'S':
+			reps = []string{"\u017F"}
+		}
+		for _, rep := range reps {
+			out = append(out, name[:i]+rep+name[i+1:])
+		}
+	}
+	return out
+}
+
+func init() {
+	seen := map[string]bool{}
+	addH := func(name string) {
+		for _, v := range confusables(name) {
+			if !seen[v] {
+				seen[v] = true
+				invalidHdrAtoms = append(invalidHdrAtoms, hk(v, hInvalid))
+			}
+		}
+	}
+	for _, tbl := range [][]HAtom{forbiddenReqHdrAtoms[:6], prohibitedReqHdrAtoms[:3], forbiddenRespHdrAtoms, prohibitedRespHdrAtoms, safelistedRespHdrAtoms[:3], authReqHdrAtoms[:1]} {
+		for _, a := range tbl {
+			addH(a.Raw)
+		}
+	}
+	for _, m := range []string{"POST", "post", "options", "OPTIONS", "TRACK", "track", "Connect", "DELETES", "patchwork", "PurgeS"} {
+		for _, v := range confusables(m) {
+			invalidMethodAtoms = append(invalidMethodAtoms, MAtom{v, mInvalid, ""})
+		}
+	}
+}
